@@ -19,8 +19,14 @@ from .common import OUT, SPEC, Machinery, Verdict, write_evidence, seed, NCPU
 KEY = {-1000000: float("nan"), -1000: -np.inf, 1000: np.inf}
 
 
-def _v(k):
-    return KEY.get(k, float(k))
+def _v(k, base=0.0, h=1.0):
+    return KEY.get(k, base + float(k) * h)
+
+
+# the integer lattice of Constraints.tla is embedded in the doubles by v -> base + v*h (exact for these
+# base / h): the unit embedding, and two fine ones where the finite limits are close but far from equal
+# "to rounding" (1.9e-6 apart around 1; 7.5e-9 apart near 0), so that they must still give two inequalities
+EMBED = ((0.0, 1.0), (1.0, 2.0 ** -20), (0.0, 2.0 ** -28))
 
 
 def universe(uid):
@@ -51,17 +57,18 @@ def _replay(args):
     bad = []
     for ci, case in enumerate(cases):
         variant = (variant0 + ci) % 4
+        base, h = EMBED[((variant0 + ci) // 4) % 3]
         comps = [c for o in case["objs"] for c in o["comps"]]
         n = len(comps) + 1                       # one spare variable (value 7)
-        x = np.array([float(c[1]) for c in comps] + [7.0])
+        x = np.array([base + float(c[1]) * h for c in comps] + [7.0])
         cons = []
         pos = 0
         for o in case["objs"]:
             m = len(o["comps"])
             idx = list(range(pos, pos + m))
             pos += m
-            lb = np.array([_v(c[0][0]) for c in o["comps"]])
-            ub = np.array([_v(c[0][1]) for c in o["comps"]])
+            lb = np.array([_v(c[0][0], base, h) for c in o["comps"]])
+            ub = np.array([_v(c[0][1], base, h) for c in o["comps"]])
             same = all(c[0] == o["comps"][0][0] for c in o["comps"])
             if same and variant % 2 == 1:        # scalar-broadcast limits
                 lba, uba = float(lb[0]), float(ub[0])
@@ -107,14 +114,14 @@ def _replay(args):
             except Exception as ex:
                 got["introspect"] = f"{type(ex).__name__}: {ex}"
         exp = {k: case[k] for k in ("lin_ub", "lin_eq", "nl_ub", "nl_eq")}
-        ok = (err is None and got.get("x_same") and got["maxcv"] == float(case["viol"])
+        ok = (err is None and got.get("x_same") and got["maxcv"] == float(case["viol"]) * h
               and all(got.get(k) == exp[k] for k in exp)
-              and got.get("lin_viol") == float(case["lin_viol"]))
+              and got.get("lin_viol") == float(case["lin_viol"]) * h)
         if not ok:
-            clause = "C17.raise" if err else ("C17.maxcv" if got.get("maxcv") != float(case["viol"]) else
+            clause = "C17.raise" if err else ("C17.maxcv" if got.get("maxcv") != float(case["viol"]) * h else
                                               ("C17.counts" if any(got.get(k) != exp[k] for k in exp) else "C17.linear"))
-            bad.append((clause, {"objs": case["objs"], "variant": variant, "expected": {**exp, "viol": case["viol"],
-                                                                                  "lin_viol": case["lin_viol"]},
+            bad.append((clause, {"objs": case["objs"], "variant": variant, "embedding": [base, h],
+                                 "expected": {**exp, "viol": case["viol"] * h, "lin_viol": case["lin_viol"] * h},
                                  "got": got, "error": err}))
     return bad, len(cases)
 
@@ -139,7 +146,7 @@ def check(pid, tier):
         for bad, k in pool.imap_unordered(_replay, chunks):
             nrep += k
             for clause, det in bad:
-                v.add(clause, json.dumps(det["objs"]) + f" variant={det['variant']}", det)
+                v.add(clause, json.dumps(det["objs"]) + f" variant={det['variant']} embed={det['embedding']}", det)
     usize = sum(sizes.values())
     cov = {"states": usize, "transitions": usize, "traces_validated_against_impl": nrep,
            "universe_size": usize, "universe_visited": nrep, "exhaustive": nrep == usize,
@@ -148,6 +155,6 @@ def check(pid, tier):
     rc = v.finish()
     write_evidence("C17", tier, "model_checking", cov, time.time() - t0, len(v.violations),
                    ["the expected internal form (counts, violations) is computed by TLC from spec/Constraints.tla, transcribed from the documentation",
-                    "limits over {-inf,1,3,+inf,NaN}, values over {0..4}: exact in floating point; lb=+inf / ub=-inf and lb>ub are outside the lattice",
+                    "limits over {-inf,1,3,+inf,NaN}, values over {0..4}, embedded in the doubles by v -> base + v*h with (base,h) in {(0,1), (1,2^-20), (0,2^-28)}: exact in floating point; lb=+inf / ub=-inf and lb>ub are outside the lattice",
                     "the Problem object built by minimize is observed by substituting a recording subclass"])
     return rc
